@@ -48,17 +48,20 @@ def burg_case(draw, dtype="any", extra=None):
     if x["kind"] == "tones" and x.get("noise", 0.0) < 0.01:
         # "tones in noise": keep the prediction error non-degenerate by construction
         x["noise"] = draw(st.sampled_from([0.01, 0.1, 1.0]))
-    pmax = min(x["n"] - 2, 30)
-    lo, hi = draw(st.sampled_from(_ORDER_BUCKETS))
-    p = draw(st.integers(min(lo, pmax), min(hi, pmax)))
-    c = {"x": x, "p": p}
-    if extra == "q":
-        c["q"] = draw(st.integers(1, p))
-    elif extra == "crit":
+    c = {"x": x}
+    if extra == "crit":
         c["criteria"] = draw(st.sampled_from(CRITERIA))
     elif extra == "pburg":
         c["criteria"] = draw(st.sampled_from([None, None] + CRITERIA))
         c["as_list"] = draw(st.booleans())
+    pmax = min(x["n"] - 2, 30)
+    if c.get("criteria") in ("AICc", "AKICc") and draw(st.integers(0, 9)) > 0:
+        # these two are only defined for order <= N-3; 1 case in 10 keeps order N-2 reachable (counted as excluded)
+        pmax = min(x["n"] - 3, 30)
+    lo, hi = draw(st.sampled_from(_ORDER_BUCKETS))
+    c["p"] = p = draw(st.integers(min(lo, pmax), min(hi, pmax)))
+    if extra == "q":
+        c["q"] = draw(st.integers(1, p))
     return c
 
 
@@ -133,7 +136,7 @@ def _c(v):
 
 
 # ---------------------------------------------------------------- sub-checks
-@sub("C13.stable", strategy=burg_case(), quick=400, thorough=12000,
+@sub("C13.stable", strategy=burg_case(), quick=800, thorough=40000,
      doc="arburg(x,p): |k_i| <= 1, own step-up of k == returned a, roots of [1,a] inside the unit circle, lengths p")
 def c13_stable(ctx, case):
     d = _domain(ctx, case)
@@ -152,14 +155,15 @@ def c13_stable(ctx, case):
     scale = max(1.0, float(np.max(np.abs(a))))
     ctx.close(_c(a), ref.stepup(k), "returned AR vector vs step-up (Levinson) polynomial of the returned reflection "
               "coefficients", rtol=0, atol=1e-10 * scale)
+    # numpy.roots is accurate to ~1e-13 here while Burg poles come as close as 4e-9 to the circle: closed disc + slack
     rmax = float(np.max(np.abs(ref.roots_of(a))))
-    ctx.check(rmax < 1.0, "AR polynomial has a root of modulus %.17g (not stable)" % rmax)
+    ctx.check(rmax <= 1.0 + 1e-8, "AR polynomial has a root of modulus %.17g outside the unit circle (not stable)" % rmax)
     if not np.iscomplexobj(x):
         ctx.check(float(np.max(np.abs(np.imag(a)))) <= 1e-12 * scale and float(np.max(np.abs(np.imag(k)))) <= 1e-12,
                   "real data gave coefficients with an imaginary part")
 
 
-@sub("C13.rho", strategy=burg_case(), quick=400, thorough=12000,
+@sub("C13.rho", strategy=burg_case(), quick=800, thorough=40000,
      doc="arburg variance == mean|x|^2 * prod(1-|k_i|^2) (returned k), real, 0 < rho <= mean|x|^2")
 def c13_rho(ctx, case):
     d = _domain(ctx, case)
@@ -180,7 +184,7 @@ def c13_rho(ctx, case):
     ctx.close(float(np.real(rho)), rr, "rho vs reference recursion", rtol=1e-8 + 1e-10 * float(ratio[-1]), atol=0)
 
 
-@sub("C13.nested", strategy=burg_case(extra="q"), quick=400, thorough=12000,
+@sub("C13.nested", strategy=burg_case(extra="q"), quick=800, thorough=40000,
      doc="arburg(x,q) for q in {1, drawn q, p-1}: k is the length-q prefix of the order-p k, rho_q >= rho_p, "
          "rho_1 >= rho_q' >= ... non-increasing")
 def c13_nested(ctx, case):
@@ -208,7 +212,7 @@ def c13_nested(ctx, case):
                   rtol=0, atol=1e-10 * max(1.0, float(np.max(np.abs(aq)))))
 
 
-@sub("C13.stage", strategy=burg_case(), quick=400, thorough=12000,
+@sub("C13.stage", strategy=burg_case(), quick=800, thorough=40000,
      doc="every k_i == -2 sum f conj(b) / sum(|f|^2+|b|^2) with f,b the stage-i errors of the textbook lattice driven "
          "by the returned k_1..k_{i-1}; the stage energy at k_i +- eps (and +- i eps) is not smaller")
 def c13_stage(ctx, case):
@@ -239,7 +243,7 @@ def c13_stage(ctx, case):
                   % (i + 1, complex(k[i]), complex(kref[i])))
 
 
-@sub("C13.arburg2", strategy=burg_case(), quick=400, thorough=12000,
+@sub("C13.arburg2", strategy=burg_case(), quick=800, thorough=40000,
      doc="_arburg2(x,p) (vectorised formulation): a[0]==1, a[1:] and k agree with arburg")
 def c13_arburg2(ctx, case):
     d = _domain(ctx, case)
@@ -256,7 +260,7 @@ def c13_arburg2(ctx, case):
     ctx.close(_c(a2)[1:], _c(a), "_arburg2 AR vector vs arburg", rtol=0, atol=10 * tol * scale * p)
 
 
-@sub("C13.criteria", strategy=burg_case(extra="crit"), quick=500, thorough=16000,
+@sub("C13.criteria", strategy=burg_case(extra="crit"), quick=1200, thorough=60000,
      doc="arburg(x,p,criteria=c) == arburg(x,q) for q = len(a) <= p (q = 0: empty vectors, rho == mean|x|^2), "
          "for c in AIC, AICc, KIC, FPE, AKICc, MDL")
 def c13_criteria(ctx, case):
@@ -291,7 +295,7 @@ def c13_criteria(ctx, case):
               rtol=0, atol=10 * (1e-9 + 1e-11 * float(ratio[q - 1])))
 
 
-@sub("C13.pburg", strategy=burg_case(extra="pburg"), quick=300, thorough=8000,
+@sub("C13.pburg", strategy=burg_case(extra="pburg"), quick=600, thorough=24000,
      doc="pburg(x,p[,criteria])().ar / .rho / .reflection == arburg(x,p[,criteria])")
 def c13_pburg(ctx, case):
     d = _domain(ctx, case)
